@@ -2,6 +2,7 @@ package rules
 
 import (
 	"go/token"
+	"go/types"
 
 	"golang.org/x/tools/go/ssa"
 
@@ -9,42 +10,327 @@ import (
 	"charonverif/internal/rt"
 )
 
-func c14M7(c *rt.Ctx) {
-	c.Rule("M7", 2, func() {
-		vbh := c.Fn("core/consensus/qbft.valuesByHash")
-		hp := c.Fn("core/consensus/qbft.hashProto")
-		ups := mapUpdates(vbh, func(m ssa.Value) bool { _, ok := m.(*ssa.MakeMap); return ok })
-		if len(ups) == 0 {
-			c.Bail("valuesByHash: no insertion into the result map")
+// M7 — the consensus value hash is computed by the same deterministic hashProto on both sides.
+// Receiver side: every insertion into a map[[32]byte]*anypb.Any of package core/consensus/qbft (found by type,
+// not by function name) is keyed by hashProto(decoded), where decoded is the UnmarshalNew of the very element that
+// is stored as the value. Proposer side: wherever an instance.ValueWithHash is built, its Hash is hashProto of the
+// value stored in its Value field. Both provenances are followed through locals, spill slots and in-package
+// wrappers (parameters replaced by the call's arguments), so `hashAny(v)` / `hashValue(value)` helpers are fine,
+// while a wrapper that hashes something else (raw bytes) is reported.
+
+func init() {
+	Extend("C14", "", func(*rt.Ctx) {},
+		// the raw-bytes hash hidden in an in-package helper
+		Mutant{ID: "C14-M7-helper-hashes-raw-any", File: "core/consensus/qbft/qbft.go", Expect: "M7",
+			Old: "\t\thash, err := hashProto(inner)\n\t\tif err != nil {\n\t\t\treturn nil, err\n\t\t}\n\n\t\tresp[hash] = v",
+			New: "\t\thash, err := func(raw *anypb.Any, _ proto.Message) ([32]byte, error) { return hashProto(&pbv1.QBFTMsg{Signature: raw.GetValue()}) }(v, inner)\n\t\tif err != nil {\n\t\t\treturn nil, err\n\t\t}\n\n\t\tresp[hash] = v"},
+		// proposer pairs the value with the hash of something else
+		Mutant{ID: "C14-M7-proposer-hash-of-other", File: "core/consensus/qbft/qbft.go", Expect: "M7",
+			Old: "\thash, err := hashProto(value)\n\tif err != nil {\n\t\treturn err\n\t}\n\n\tinst := c.getInstanceIO(duty)",
+			New: "\thash, err := hashProto(core.DutyToProto(duty))\n\tif err != nil {\n\t\treturn err\n\t}\n\n\tinst := c.getInstanceIO(duty)"},
+		// receiver keys the map by something that is not a hashProto result at all
+		Mutant{ID: "C14-M7-receiver-raw-prefix", File: "core/consensus/qbft/qbft.go", Expect: "M7",
+			Old: "\t\tresp[hash] = v\n", New: "\t\tresp[[32]byte(append(hash[:0:0], v.GetValue()...))] = v\n"})
+}
+
+type m7Bound struct {
+	v   ssa.Value
+	env m7Env
+}
+type m7Env map[*ssa.Parameter]m7Bound
+
+// m7Subst resolves v through locals and through the parameters of inlined wrappers.
+func m7Subst(v ssa.Value, env m7Env) (ssa.Value, m7Env) {
+	for i := 0; i < 16; i++ {
+		v = an.Resolve(v)
+		p, ok := v.(*ssa.Parameter)
+		if !ok {
+			return v, env
 		}
-		for _, up := range ups {
-			good, why := false, "the key of a received value is not the result of hashProto"
-			if ex, ok := an.Unwrap(up.Key).(*ssa.Extract); ok && ex.Index == 0 {
-				if hc, ok := ex.Tuple.(*ssa.Call); ok && hc.Call.StaticCallee() == hp {
-					why = "hashProto is applied to the wrapper/bytes as received, not to the decoded message (UnmarshalNew of the element)"
-					if ix, ok := an.Unwrap(hc.Call.Args[0]).(*ssa.Extract); ok && ix.Index == 0 {
-						if uc, ok := ix.Tuple.(*ssa.Call); ok && uc.Call.StaticCallee() != nil && uc.Call.StaticCallee().Name() == "UnmarshalNew" {
-							good = true
-						}
-					}
+		b, ok := env[p]
+		if !ok {
+			return v, env
+		}
+		v, env = b.v, b.env
+	}
+	return v, env
+}
+
+// m7HashArg finds the hashProto call whose first result is v (through in-package wrappers) and returns its
+// argument. status: 0 found, 1 unknown shape, 2 v is not a hashProto result.
+func m7HashArg(hp *ssa.Function, v ssa.Value, env m7Env, d int) (ssa.Value, m7Env, int) {
+	if d > 5 {
+		return nil, nil, 1
+	}
+	v, env = m7Subst(v, env)
+	idx := 0
+	var call *ssa.Call
+	switch x := v.(type) {
+	case *ssa.Extract:
+		call, _ = x.Tuple.(*ssa.Call)
+		idx = x.Index
+	case *ssa.Call:
+		call = x
+	case *ssa.Phi, *ssa.Parameter:
+		return nil, nil, 1
+	case *ssa.UnOp:
+		if _, isLocal := x.X.(*ssa.Alloc); isLocal {
+			return nil, nil, 1 // a local assigned on several paths
+		}
+	}
+	if call == nil || idx != 0 {
+		return nil, nil, 2
+	}
+	if call.Call.StaticCallee() == hp {
+		return call.Call.Args[0], env, 0
+	}
+	body := an.StaticBody(&call.Call)
+	if body == nil {
+		return nil, nil, 2
+	}
+	env2 := m7Env{}
+	for i, p := range body.Params {
+		if i < len(call.Call.Args) {
+			env2[p] = m7Bound{call.Call.Args[i], env}
+		}
+	}
+	var arg ssa.Value
+	var argEnv m7Env
+	cases := an.SuccessCases(body)
+	if len(cases) == 0 {
+		return nil, nil, 1
+	}
+	for i, rc := range cases {
+		a, e, st := m7HashArg(hp, rc.Vals[0], env2, d+1)
+		if st != 0 {
+			return nil, nil, st
+		}
+		if i > 0 {
+			a0, _ := m7Subst(arg, argEnv)
+			a1, _ := m7Subst(a, e)
+			if !an.EquivX(a0, a1) {
+				return nil, nil, 1
+			}
+		}
+		arg, argEnv = a, e
+	}
+	return arg, argEnv, 0
+}
+
+func m7IsHashMap(t types.Type) bool {
+	m, ok := t.Underlying().(*types.Map)
+	if !ok {
+		return false
+	}
+	arr, ok := m.Key().Underlying().(*types.Array)
+	if !ok || arr.Len() != 32 {
+		return false
+	}
+	return an.TypeName(m.Elem()) == "google.golang.org/protobuf/types/known/anypb.Any"
+}
+
+// m7ReceivedElem: v is an element of a []*anypb.Any (range element or indexed read), possibly handed to the
+// inserting helper as an argument by an in-package caller.
+func m7ReceivedElem(v ssa.Value, fns []*ssa.Function, d int) bool {
+	v = an.Resolve(v)
+	isAnySlice := func(t types.Type) bool {
+		sl, ok := t.Underlying().(*types.Slice)
+		return ok && an.TypeName(sl.Elem()) == "google.golang.org/protobuf/types/known/anypb.Any"
+	}
+	switch x := v.(type) {
+	case *ssa.Extract:
+		if nx, ok := x.Tuple.(*ssa.Next); ok {
+			if rg, ok := nx.Iter.(*ssa.Range); ok {
+				return isAnySlice(rg.X.Type())
+			}
+		}
+	case *ssa.UnOp:
+		if ia, ok := x.X.(*ssa.IndexAddr); ok && x.Op == token.MUL {
+			t := ia.X.Type()
+			if p, ok := t.Underlying().(*types.Pointer); ok {
+				t = p.Elem()
+			}
+			return isAnySlice(t)
+		}
+	case *ssa.Index:
+		return isAnySlice(x.X.Type())
+	case *ssa.Parameter:
+		if d > 2 {
+			return false
+		}
+		idx := an.ParamIndex(x)
+		for _, g := range fns {
+			for _, ci := range an.Calls(g, func(cc *ssa.CallCommon) bool {
+				f := an.StaticBody(cc)
+				return f != nil && an.Orig(f) == an.Orig(x.Parent())
+			}, false) {
+				if idx < len(ci.Common().Args) && m7ReceivedElem(ci.Common().Args[idx], fns, d+1) {
+					return true
 				}
 			}
-			c.Check("valuesByHash key = hashProto(decoded value)", posOf(up), good, why)
 		}
-		// proposer side: the hash proposed to QBFT is hashProto of the value
-		found := false
-		for _, fn := range an.PkgFuncs(c.SSAPkg("core/consensus/qbft")) {
-			if fn.Name() != "propose" && fn.Name() != "Propose" {
-				continue
+	}
+	return false
+}
+
+// m7Pair decides "hash = hashProto(val)" for a (hash, value) pair; when the hash is a parameter of the building
+// helper, the pair is decided at every in-package call site of the helper (arguments substituted for parameters).
+// status: 0 holds, 1 undecided, 2 violated.
+func m7Pair(hp *ssa.Function, fns []*ssa.Function, hash, val ssa.Value, env m7Env, d int) (int, string) {
+	return m7PairAt(hp, fns, hash, env, val, env, d)
+}
+
+func m7PairAt(hp *ssa.Function, fns []*ssa.Function, hash ssa.Value, henv m7Env, val ssa.Value, venv m7Env, d int) (int, string) {
+	if h, e := m7Subst(hash, henv); d < 3 {
+		if _, ok := h.(*ssa.Parameter); ok {
+			return m7PairParam(hp, fns, h, e, val, venv, d)
+		}
+	}
+	arg, env, status := m7HashArg(hp, hash, henv, 0)
+	switch status {
+	case 2:
+		return 2, "the proposed hash is not hashProto of the proposed value"
+	case 1:
+		return 1, "cannot follow the provenance of the proposed hash to a hashProto call"
+	}
+	a, _ := m7Subst(arg, env)
+	v, _ := m7Subst(val, venv)
+	if an.EquivX(a, v) {
+		return 0, ""
+	}
+	switch a.(type) {
+	case *ssa.Parameter, *ssa.Call, *ssa.Extract, *ssa.Const, *ssa.MakeInterface, *ssa.Alloc:
+		return 2, "the proposed hash is hashProto of another value than the one proposed"
+	}
+	return 1, "cannot show that the hashed message is the proposed value"
+}
+
+// m7PairParam: the hash is (still) a parameter after substitution: go to that function's call sites.
+func m7PairParam(hp *ssa.Function, fns []*ssa.Function, h ssa.Value, henv m7Env, val ssa.Value, venv m7Env, d int) (int, string) {
+	p := h.(*ssa.Parameter)
+	fn := p.Parent()
+	n, worst, why := 0, 0, ""
+	for _, g := range fns {
+		for _, ci := range an.Calls(g, func(cc *ssa.CallCommon) bool {
+			f := an.StaticBody(cc)
+			return f != nil && an.Orig(f) == an.Orig(fn)
+		}, false) {
+			n++
+			env2 := m7Env{}
+			for i, q := range fn.Params {
+				if i < len(ci.Common().Args) {
+					env2[q] = m7Bound{ci.Common().Args[i], nil}
+				}
 			}
-			for _, call := range an.Calls(fn, func(cc *ssa.CallCommon) bool { return cc.StaticCallee() == hp }, true) {
-				found = true
-				_, isParam := an.Resolve(call.Common().Args[0]).(*ssa.Parameter)
-				c.Check(an.FuncName(fn)+" proposes hashProto(value)", call.Pos(), isParam, "the proposed hash is not hashProto of the proposed value")
+			v2, ve := m7Subst(val, venv)
+			if q, ok := v2.(*ssa.Parameter); ok && q.Parent() == fn {
+				ve = env2
+			}
+			st, w := m7PairAt(hp, fns, p, env2, v2, ve, d+1)
+			if st > worst {
+				worst, why = st, w
 			}
 		}
-		if !found {
-			c.Unsure("propose hashProto", token.NoPos, "no hashProto call on the proposing side found")
+	}
+	if n == 0 {
+		return 1, "the proposed hash is a parameter of a function without static in-package callers"
+	}
+	return worst, why
+}
+
+func c14M7(c *rt.Ctx) {
+	c.Rule("M7", 2, func() {
+		hp := c.Fn("core/consensus/qbft.hashProto")
+		fns := an.PkgFuncs(c.SSAPkg("core/consensus/qbft"))
+		nRecv := 0
+		for _, fn := range fns {
+			for _, up := range mapUpdates(fn, func(m ssa.Value) bool { return m7IsHashMap(m.Type()) }) {
+				if up.Parent() != fn || !m7ReceivedElem(up.Value, fns, 0) {
+					continue // not a value taken from a received []*anypb.Any (own proposal, copy between hash maps)
+				}
+				nRecv++
+				k := an.FuncName(fn) + " key = hashProto(decoded value)"
+				arg, env, st := m7HashArg(hp, up.Key, nil, 0)
+				switch st {
+				case 2:
+					c.Bad(k, posOf(up), "the key of a received value is not the result of hashProto")
+					continue
+				case 1:
+					c.Unsure(k, posOf(up), "cannot follow the provenance of the key of a received value to a hashProto call")
+					continue
+				}
+				dec, denv := m7Subst(arg, env)
+				var uc *ssa.Call
+				switch x := dec.(type) {
+				case *ssa.Extract:
+					if x.Index == 0 {
+						uc, _ = x.Tuple.(*ssa.Call)
+					}
+				case *ssa.Call:
+					uc = x
+				}
+				if uc == nil || uc.Call.StaticCallee() == nil || uc.Call.StaticCallee().Name() != "UnmarshalNew" || len(uc.Call.Args) == 0 {
+					if _, isPhi := dec.(*ssa.Phi); isPhi {
+						c.Unsure(k, posOf(up), "the hashed message is a merge of several values")
+						continue
+					}
+					c.Bad(k, posOf(up), "hashProto is applied to the wrapper/bytes as received, not to the decoded message (UnmarshalNew of the element)")
+					continue
+				}
+				src, _ := m7Subst(uc.Call.Args[0], denv)
+				val, _ := m7Subst(up.Value, nil)
+				if !an.EquivX(src, val) {
+					c.Unsure(k, posOf(up), "cannot show that the hashed message is the decoding of the element stored under the hash")
+					continue
+				}
+				c.Good(k, posOf(up), "key = hashProto(UnmarshalNew(element)), value = element")
+			}
+		}
+		if nRecv == 0 {
+			c.Unsure("received values keyed by hash", token.NoPos, "no insertion into a map[[32]byte]*anypb.Any found in core/consensus/qbft")
+		}
+		// proposer side: Hash and Value of every instance.ValueWithHash built in the package
+		nProp := 0
+		for _, fn := range fns {
+			for _, in := range an.Instrs(fn, false) {
+				st, ok := in.(*ssa.Store)
+				if !ok {
+					continue
+				}
+				fa, ok := st.Addr.(*ssa.FieldAddr)
+				if !ok || an.FieldKey(fa.X.Type(), fa.Field) != "core/consensus/instance.ValueWithHash.Hash" {
+					continue
+				}
+				nProp++
+				k := an.FuncName(fn) + " proposes hashProto(value)"
+				var val ssa.Value
+				for _, in2 := range an.Instrs(fn, false) {
+					st2, ok := in2.(*ssa.Store)
+					if !ok {
+						continue
+					}
+					fa2, ok := st2.Addr.(*ssa.FieldAddr)
+					if ok && fa2.X == fa.X && an.FieldKey(fa2.X.Type(), fa2.Field) == "core/consensus/instance.ValueWithHash.Value" {
+						val = st2.Val
+					}
+				}
+				if val == nil {
+					c.Unsure(k, st.Pos(), "the Value stored next to the Hash was not found")
+					continue
+				}
+				status, why := m7Pair(hp, fns, st.Val, val, nil, 0)
+				switch status {
+				case 0:
+					c.Good(k, st.Pos(), "Hash = hashProto(Value)")
+				case 1:
+					c.Unsure(k, st.Pos(), why)
+				default:
+					c.Bad(k, st.Pos(), why)
+				}
+			}
+		}
+		if nProp == 0 {
+			c.Unsure("propose hashProto", token.NoPos, "no instance.ValueWithHash is built in core/consensus/qbft")
 		}
 	})
 }
